@@ -226,7 +226,7 @@ pub mod verif {
     pub use crate::operator::Operator;
     // C13/C14: operator execution context (run / run_in_place on caller-built inputs).
     pub use crate::operator::{InPlaceInputs, InputList, OpError, OpRunContext, OutputList, OutputMask};
-    pub use crate::ops::verif_ops::{broadcast_shapes, fast_broadcast_cycles_repeats, transform_inputs_permute};
+    pub use crate::ops::verif_ops::{broadcast_shapes, build_im2col, fast_broadcast_cycles_repeats, transform_inputs_permute};
 
     /// Real operators used as planner test nodes: `Identity` (can run in
     /// place), `Shape` (cannot), `If` (has subgraphs, hence captures).
